@@ -684,10 +684,156 @@ class Inliner:
             blk["term"] = {"k": "goto", "target": boff, "sp": t.get("sp"), "inlined_call": p}
             self.inlined.append((p, t.get("sp")))
         out["inlined"] = list(self.inlined)
-        if self.inlined and self.thread:
+        if self.closures:
+            unrolled = 0
+            for _ in range(6):          # (nested / several loops: one per round)
+                if not unroll_array_loop(out):
+                    break
+                unrolled += 1
+            if unrolled:
+                out["unrolled_loops"] = unrolled
+            resolve_fn_item_pointers(out)
+        if (self.inlined or out.get("unrolled_loops")) and self.thread:
             # the joins at inlined returns make failing paths seem able to continue: separate them (see thread.py)
             out = T.thread(out)
         return out
+
+
+def _map_locals(node, lmap):
+    """a deep copy of a statement / terminator with the locals in `lmap` replaced"""
+    if isinstance(node, list):
+        return [_map_locals(x, lmap) for x in node]
+    if isinstance(node, dict):
+        out = {}
+        for k, v in node.items():
+            if k == "l" and isinstance(v, int):
+                out[k] = lmap.get(v, v)
+            else:
+                out[k] = _map_locals(v, lmap)
+        return out
+    return node
+
+
+def unroll_array_loop(fact, max_rows=8):
+    """`for row in [r0, r1, ..]` over an array built in this very body (a table of rows: names, bounds, comparison functions) runs its
+    body once per row, in order: the loop is replaced by that many copies of its body, each with its row in place of the element
+    (locals assigned inside the body get a copy per round, so that every copy reads as straight-line code). Returns True when a loop
+    was unrolled. Only the plain shape is taken: `into_iter` of the array value, one `next` call, a switch on its result."""
+    m = fact["mir"]
+    B = M.Body(fact)
+    for ibb, it in B.calls():
+        if not (M.Body.callee_decl(it) or "").endswith("iter::IntoIterator::into_iter") or it.get("unrolled") or not it.get("args"):
+            continue
+        os_ = M.trace(B, it["args"][0], ())
+        if len(os_) != 1 or os_[0].kind != "aggregate" or os_[0].rv.get("ak") != "array" or os_[0].proj:
+            continue
+        rows = os_[0].rv["ops"]
+        if not (1 <= len(rows) <= max_rows):
+            continue
+        nexts = []
+        for nbb, nt in B.calls():
+            if (M.Body.callee_decl(nt) or "").endswith("iter::Iterator::next") and nt.get("args"):
+                if any(o.kind == "call" and o.bb == ibb for o in M.trace(B, nt["args"][0], ())):
+                    nexts.append((nbb, nt))
+        if len(nexts) != 1:
+            continue
+        hbb, ht = nexts[0]
+        if ht.get("target") is None or (ht.get("dest") or {}).get("proj"):
+            continue
+        opt = ht["dest"]["l"]
+        sbb = ht["target"]
+        sw = B.term(sbb)
+        if sw.get("k") != "switch":
+            continue
+        none_t = [b for v, b in sw["targets"] if v == 0]
+        some_t = [b for v, b in sw["targets"] if v == 1]
+        if len(none_t) != 1 or len(some_t) != 1:
+            continue
+        exit_bb, body_bb = none_t[0], some_t[0]
+        # the body: what is reachable from the Some arm without passing the header again
+        region, st = set(), [body_bb]
+        while st:
+            x = st.pop()
+            if x in region or x == hbb:
+                continue
+            region.add(x)
+            st.extend(y for y in B.succ[x] if y != hbb)
+        if hbb in region or sbb in region or len(region) > 400:
+            continue
+        if not any(hbb in B.succ[x] for x in region):
+            continue      # no way back: not a loop
+        blocks = m["blocks"]
+        # locals that get a value inside the body: one copy per round
+        assigned = set()
+        for x in region:
+            for s_ in blocks[x]["stmts"]:
+                if s_["k"] == "assign" and not s_["p"].get("proj"):
+                    assigned.add(s_["p"]["l"])
+                if s_["k"] in ("storage_live",) and isinstance(s_.get("l"), int):
+                    assigned.add(s_["l"])
+            t_ = blocks[x].get("term") or {}
+            if t_.get("k") == "call" and "l" in (t_.get("dest") or {}) and not t_["dest"].get("proj"):
+                assigned.add(t_["dest"]["l"])
+        assigned.discard(0)
+        assigned = {l for l in assigned if l > m["arg_count"]}
+        assigned.add(opt)       # (the element of each round is a value of its own)
+        entries = []
+        clones = []
+        for i, row in enumerate(rows):
+            lmap = {}
+            for l in sorted(assigned):
+                nl = dict(m["locals"][l])
+                nl["i"] = len(m["locals"])
+                nl["from_round"] = i
+                m["locals"].append(nl)
+                lmap[l] = nl["i"]
+            bmap = {x: len(blocks) + k for k, x in enumerate(sorted(region))}
+            entries.append(bmap[body_bb])
+            clones.append((lmap, bmap))
+            for x in sorted(region):
+                src = blocks[x]
+                nb = {"i": bmap[x], "stmts": _map_locals(src["stmts"], lmap), "term": _map_locals(src.get("term") or {"k": "unreachable"}, lmap)}
+                for key in ("from", "orig"):
+                    if key in src:
+                        nb[key] = src[key]
+                nb["round"] = i
+                blocks.append(nb)
+        for i, (lmap, bmap) in enumerate(clones):
+            nxt = entries[i + 1] if i + 1 < len(entries) else exit_bb
+            for x in sorted(region):
+                t_ = blocks[bmap[x]]["term"]
+                for key in BLOCK_KEYS:
+                    if isinstance(t_.get(key), int):
+                        t_[key] = nxt if t_[key] == hbb else bmap.get(t_[key], t_[key])
+                if t_.get("k") == "switch":
+                    t_["targets"] = [[v, (nxt if b == hbb else bmap.get(b, b))] for v, b in t_["targets"]]
+            entry = blocks[bmap[body_bb]]
+            entry["stmts"] = [{"k": "assign", "p": {"l": lmap[opt]}, "rv": {"k": "aggregate", "ak": "adt", "adt": "std::option::Option", "variant": "Some",
+                                                                    "fields": ["0"], "ops": [copy.deepcopy(rows[i])]}, "sp": ht.get("sp"), "inl": "row"}] + entry["stmts"]
+        it["unrolled"] = True
+        blocks[hbb] = dict(blocks[hbb], stmts=list(blocks[hbb]["stmts"]), term={"k": "goto", "target": entries[0], "sp": ht.get("sp"), "unrolled_loop": len(rows)})
+        return True
+    return False
+
+
+BLOCK_KEYS = ("target", "otherwise", "imaginary", "drop", "real")
+
+
+def resolve_fn_item_pointers(fact):
+    """a call through a function pointer whose value is, on every path, one function item (`let cmp: fn(&i128, &i128) -> bool =
+    i128::ge; cmp(a, b)`, a row of a table after unrolling) is a call of that function"""
+    B = M.Body(fact)
+    n = 0
+    for bb, t in B.calls():
+        f = t.get("func") or {}
+        if f.get("k") not in ("copy", "move"):
+            continue
+        os_ = M.trace(B, f, M.IDENTITY_CALLS)
+        if os_ and all(o.kind == "const" and o.const.get("fn_path") for o in os_) and len({(o.const.get("inst_path"), o.const["fn_path"], tuple(o.const.get("gargs") or ())) for o in os_}) == 1:
+            t["func"] = copy.deepcopy(os_[0].const)
+            t["through_pointer"] = True
+            n += 1
+    return n
 
 
 def inlined_body(crate, path, stop=lambda p: False, **kw):
